@@ -17,7 +17,7 @@ import time
 from . import assemble, unit as unitmod, props, sidecar, kani
 
 VERIF = assemble.VERIF
-EVID = os.path.join(VERIF, "evidence")
+EVID = os.environ.get("VERIF_EVIDENCE_DIR") or os.path.join(VERIF, "evidence")
 REPLAY_DIR = os.path.join(EVID, "replay")
 KNOWN = os.path.join(VERIF, "known-findings.txt")
 BASE = os.path.join(VERIF, "baseline")
@@ -82,7 +82,9 @@ def run_component(c, tier):
 def decide(pid, tier, seed):
     t0 = time.time()
     p = props.PROPS[pid]
-    comps = [c for c in p["components"] if tier == "thorough" or c.get("tier", "quick") == "quick"]
+    comps = [c for c in p["components"]
+             if (tier == "thorough" and c.get("tier", "quick") != "quick-only")
+             or (tier != "thorough" and c.get("tier", "quick") in ("quick", "quick-only"))]
     results = []
     with cf.ThreadPoolExecutor(max_workers=max(1, min(8, len(comps)))) as ex:
         futs = [ex.submit(run_component, c, tier) for c in comps]
